@@ -117,8 +117,11 @@ C11 == C11upper /\ C11lower /\ C11code
 (*      first HTLC of a fresh payment failing the policy tests gets it     *)
 BE(n, k) == [j \in 1..k |-> (n \div (256 ^ (k - j))) % 256]
 FeeBytes == <<32, 26>> \o BE(cfg.base, 4) \o BE(cfg.ppm, 4) \o BE(cfg.pdelta, 2)
+\* the stored state of h is being delivered to the plugin in this very step as absent/free
+ReadFreeNow(h) == /\ last'.t = "deliver" /\ last'.c.kind = "listds" /\ last'.c.hash = h
+                  /\ last'.res.r = "ok" /\ last'.res.st \in {"absent", "free"}
 C12first == \A i \in AnsNow :
-              htlc'[i].fb /\ cfg.mpp > 0 /\ obs[KeyOf(i)].readAt # -1 /\ ~obs[KeyOf(i)].paid
+              htlc'[i].fb /\ cfg.mpp > 0 /\ (obs[KeyOf(i)].readAt # -1 \/ ReadFreeNow(KeyOf(i))) /\ ~obs[KeyOf(i)].paid
                 => Resp(i).r = "fail" /\ Resp(i).code = "fee"
 C12 == C12first
 
